@@ -217,13 +217,3 @@ Proof.
   destruct fin, op, (c_cont c), pl; cbn [negb]; intro H; try discriminate; injection H; intros; subst;
     repeat split; try assumption; reflexivity.
 Qed.
-
-(* the payload carried by a frame *)
-Definition frame_payload_len (f : frame) : N :=
-  match f with
-  | FText b | FBinary b | FPing b | FPong b => lenN b
-  | FContinuation (FirstText b) | FContinuation (FirstBinary b) | FContinuation (Continue b)
-  | FContinuation (Last b) => lenN b
-  | FClose None => 0
-  | FClose (Some (_, d)) => 2 + match d with Some _ => 0 | None => 0 end
-  end.
